@@ -57,7 +57,8 @@ DRIVERS = [os.path.join(H, f) for f in
            ["drv_views.cpp"] + ["drv_views_r%d%s.cpp" % (r, x) for r in (4, 5, 6) for x in ("", "i", "e")] +
            ["drv_views_act.cpp", "drv_views_fix.cpp", "drv_views_x1.cpp", "drv_views_x2.cpp", "drv_views_x3.cpp",
             "drv_views_x4.cpp", "drv_views_x5.cpp", "drv_views_x6.cpp",
-            "drv_views_idx.cpp", "drv_views_idx3.cpp", "drv_views_idx3v.cpp", "drv_views_idx4.cpp"]]
+            "drv_views_idx.cpp", "drv_views_idx2a.cpp", "drv_views_idx2b.cpp", "drv_views_idx2c.cpp", "drv_views_idx2d.cpp",
+            "drv_views_idx3.cpp", "drv_views_idx3r.cpp", "drv_views_idx3v.cpp", "drv_views_idx4.cpp"]]
 CORR = ("AdeptModel/Views.lean, AdeptModel/IndexedViews.lean <-> Array view-forming member functions and IndexedArray "
         "(harness/drv_views*.cpp)")
 SIG_EMPTY = "indexed-array-zero-extent-after-nonzero-leading-extent"
@@ -274,8 +275,8 @@ def slice_compiled(kind, r, args):
     if not ok:
         return False
     if r >= 3:
-        # the other arguments: scalars and __ (rank 6: __ in the last position only)
-        return all(kk == "S" or (kk == "A" and (r < 6 or jj == r - 1)) for jj, (kk, _) in enumerate(parts) if jj != j)
+        # the other arguments: scalars and __ (ranks 4..6: __ in the last position only)
+        return all(kk == "S" or (kk == "A" and (r < 4 or jj == r - 1)) for jj, (kk, _) in enumerate(parts) if jj != j)
     return True
 
 
@@ -494,6 +495,9 @@ def ix_compiled(letters):
         return ((plain(f) and plain(l)) or (u2(f) and l in IX_PARTNER) or (u2(l) and f in IX_PARTNER)
                 or (f.startswith("Y") and l == "V") or (l.startswith("Y") and f == "V"))
     if r == 3:
+        us = [l for l in letters if l.startswith("U")]
+        if us:                              # one vector expression (first NVMENU2 shapes) between two scalars
+            return len(us) == 1 and int(us[0][1:]) < NVMENU2 and all(l in "IE" or l.startswith("U") for l in letters)
         return all(l in "IErRAV" for l in letters)
     if r == 4:
         return "".join("R" if l == "r" else l for l in letters) in IX_MENU4
@@ -933,7 +937,8 @@ class Gen:
             return None
         if r >= 3 and all(d > 0 for d in dims) and rng.random() < 0.5:
             # ranks 3..6: the other arguments of such a call are scalars and __: rewrite the ranges among them
-            args = [a if (a == "_" or a.startswith("i:")) else ("_" if (r < 6 or k == r - 1) else "i:e0") for k, a in enumerate(args)]
+            args = [a if (a.startswith("i:") or (a == "_" and (r < 4 or k == r - 1))) else ("_" if (r < 4 or k == r - 1) else "i:e0")
+                    for k, a in enumerate(args)]
             keep = rng.randrange(r)
             if dims[keep] > 0 and args[keep] == "_":
                 args[keep] = "r:%d,e0" % rng.randrange(dims[keep])
@@ -1293,7 +1298,7 @@ class Gen:
                 self.count("malformed_ix_range_" + side)
         # value-preserving rewriting: an index vector as an integer-vector expression over an intVector (u:VE:raw),
         # a scalar next to an intVector as `end` arithmetic; then the const overload
-        if r <= 2 and rng.random() < 0.45:
+        if r <= 3 and rng.random() < 0.45:
             cand = [k for k, a in enumerate(args) if a[:2] in ("v:", "x:", "w:") and len(a) > 2]
             if r == 2:
                 cand += [k for k, a in enumerate(args) if a.startswith("i:") and args[1 - k].startswith("v:")]
@@ -1633,7 +1638,7 @@ def rich_sweep(rng, checked, stats):
                             arg = None if t is None or tag != "ok" else "s:%d,%d,%s" % (lo2, hi2, t)
                         if arg is None:
                             continue
-                        others = [("i:e0" if (k + j) % 2 or (r == 6 and k != r - 1) else "_") for k in range(r)] if r >= 3 else \
+                        others = [("i:e0" if (k + j) % 2 or (r >= 4 and k != r - 1) else "_") for k in range(r)] if r >= 3 else \
                                  [("i:%d" % (nd[k] - 1), "r:0,e0", "_")[(k + j + sid) % 3] for k in range(r)]
                         args = list(others)
                         args[j] = arg
@@ -1667,7 +1672,8 @@ def rich_sweep(rng, checked, stats):
 
 def vexpr_sweep(rng, checked, stats):
     """every compiled integer-vector expression as an index vector: rank 1 (all shapes), rank 2 (the first NVMENU2 shapes
-    with every partner I E R A V in either order; every rich scalar shape of the rank-2 menu next to an intVector), through
+    with every partner I E R A V in either order; every rich scalar shape of the rank-2 menu next to an intVector), rank 3
+    (the first NVMENU2 shapes in every position between two scalars), through
     the const and the non-const operator(); entries admissible, and in the bounds-checked build also one entry -1 / n"""
     out = []
     pre1 = ["parent rm 11", "slice s:e0,1,-1"]                      # 10 elements, reversed, begin 10
@@ -1703,6 +1709,25 @@ def vexpr_sweep(rng, checked, stats):
                         args[pos] = t
                         args[1 - pos] = ix_valid_arg(partner, (5, 3)[1 - pos], sid + pos)
                         out.append(pre2 + [("cix " if (sid + pos) % 2 else "ix ") + " ".join(args), "softlink"])
+    pre3 = ["parent rm 4 5 6", "slice s:e0,1,-1 s:1,e0,2 s:e0,1,-1"]    # 3 x 2 x 5
+    d3 = (3, 2, 5)
+    for sid in range(NVMENU2):
+        for pos in range(3):
+            for variant in (["ok"] + (["badn", "bad-1"] if checked else [])):
+                Lv = d3[pos]
+                ent = [rng.randrange(Lv) for _ in range(2)]
+                if sid == VSHAPES.index("(v+v)"):
+                    ent = [2 * (x // 2) for x in ent]
+                if variant == "badn":
+                    ent[0] = Lv
+                if variant == "bad-1":
+                    ent[1] = -1 if sid != VSHAPES.index("(v+v)") else -2
+                t = vexpr_token(rng, ent, Lv, [sid], stats)
+                if t is None:
+                    continue
+                args = [("i:%d" % rng.randrange(d3[k])) if (k + sid) % 2 else ("i:e%d" % rng.randrange(d3[k])) for k in range(3)]
+                args[pos] = t
+                out.append(pre3 + [("cix " if (sid + pos) % 2 else "ix ") + " ".join(args), "softlink"])
     for sid in range(XMENU[2]):
         for pos in (0, 1):
             Ls = (5, 3)[pos]
@@ -1959,7 +1984,7 @@ def run(ctx, replay):
         for c in probes:
             run_batch(ctx, exes[mode], mode, [c], ("default" if mode == "unchecked" else "bounds-checking") + "/fixedarray-T")
     depth = 4 if quick else 6
-    n_valid, n_valid_chk, n_malf, n_contig = (3000, 800, 1500, 400) if quick else (60000, 14000, 26000, 4000)
+    n_valid, n_valid_chk, n_malf, n_contig = (4500, 1500, 2500, 500) if quick else (150000, 36000, 64000, 8000)
     stats = {}
     corpus = load_corpus()
     for mode, lines in corpus:
